@@ -11,3 +11,8 @@ import PorepyVerif.C15.Props
 #print axioms PorepyVerif.C15.scalar_gradient_closed_sum_zero
 #print axioms PorepyVerif.C15.pressure_jump_zero
 #print axioms PorepyVerif.C15.applyRows_zero
+#print axioms PorepyVerif.C15.Biot2.biot2d_div_u_exact
+#print axioms PorepyVerif.C15.Biot2.biot2d_div_u_exact_alpha
+#print axioms PorepyVerif.C15.Biot2.biot2d_grad_p_const
+#print axioms PorepyVerif.C15.Biot2.biot2d_grad_p_const_iso
+#print axioms PorepyVerif.C15.Biot2.biot2d_stab_const
